@@ -89,17 +89,26 @@ class InboundRules(Rule):
             if not _cb_match(cb, exp_cbs[i]):
                 e = exp_cbs[i]
                 L.violate("C06", "D3" if e[2] == 2 else "D1", "delivery-differs:qos%d:%s" % (e[2], _cb_diff(cb, e)),
-                          "onPublish%r differs from received %r" % (cb, e[:6]))
+                          "onPublish%r differs from received %r" % (_short(cb), _short(e[:6])))
+                L.violate("C02", "W4", "PUBLISH:delivery-differs:%s" % _cb_diff(cb, e),
+                          "what reached onPublish %r differs from the fields the broker encoded %r" % (_short(cb), _short(e[:6])))
                 return
             i += 1
         rest = [e for e in exp_cbs[i:] if not e[6]]
         if rest:
             e = rest[0]
             L.violate("C06", "D3" if e[2] == 2 else "D1", "missing-delivery:qos%d" % e[2],
-                      "received PUBLISH %r was not delivered to onPublish" % (e[:6],))
+                      "received PUBLISH %r was not delivered to onPublish" % (_short(e[:6]),))
+            L.violate("C02", "W4", "PUBLISH:not-delivered:qos%d" % e[2],
+                      "a well-formed PUBLISH %r never reached onPublish" % (_short(e[:6]),))
 
     def finish(self):
         pass
+
+
+def _short(v):
+    s = repr(v)
+    return s if len(s) <= 160 else s[:150] + "...(%d chars)" % len(s)
 
 
 def _cb_match(cb, e):
@@ -167,7 +176,14 @@ class SubRequestRules(Rule):
         # S2
         for (rid, ok, val) in d.fires:
             rq = L.reqs.get(rid)
-            if rq is None or rq.kind not in ("subscribe", "unsubscribe") or not rq.accepted or not ok:
+            if rq is None or rq.kind not in ("subscribe", "unsubscribe") or not rq.accepted:
+                continue
+            if not ok:
+                # an accepted request only fails when a connection to ITS address is lost
+                if not (d.kind == "lost" and d.lost_conn is not None and d.lost_conn.addr == rq.addr):
+                    L.violate("C07", "S2", "failed-without-loss:%s:%s" % (rq.kind, d.kind),
+                              "%s rid=%d on %s failed (%s) in a %s dispatch that is not a loss of that address"
+                              % (rq.kind, rid, rq.addr, val[0] if val else "?", d.kind))
                 continue
             if rq.ack1 != d.seq:
                 L.violate("C07", "S2", "success-without-ack:%s" % rq.kind,
